@@ -171,6 +171,39 @@ func c17Run(w *W, c Case) {
 		if got := listStrings(tao.GetFestivals()); strings.Join(got, "|") != strings.Join(wantTao, "|") {
 			w.Violatef("festivals", "tao@"+key, "Tao.GetFestivals at %s (lunar %s, term %q, day %s) = %v, tables give %v", key, md, term, pillar, got, wantTao)
 		}
+		// full renderings (name + remark / result): TaoFestival.ToFullString, FotoFestival.ToFullString
+		var wantTaoFull, gotTaoFull []string
+		for _, f := range TaoUtil.FESTIVAL[md] {
+			s := f[0]
+			if len(f) > 1 && f[1] != "" {
+				s += "[" + f[1] + "]"
+			}
+			wantTaoFull = append(wantTaoFull, s)
+		}
+		for e := tao.GetFestivals().Front(); e != nil; e = e.Next() {
+			gotTaoFull = append(gotTaoFull, e.Value.(*calendar.TaoFestival).ToFullString())
+		}
+		if len(gotTaoFull) < len(wantTaoFull) || strings.Join(gotTaoFull[:len(wantTaoFull)], "|") != strings.Join(wantTaoFull, "|") {
+			w.Violatef("festivals", "tao-full@"+key, "Tao festival full strings at lunar %s = %v, table gives %v first", md, gotTaoFull, wantTaoFull)
+		}
+		var wantFotoFull, gotFotoFull []string
+		for _, f := range FotoUtil.FESTIVAL[amd] {
+			s := f[0]
+			if len(f) > 1 && f[1] != "" {
+				s += " " + f[1]
+			}
+			if len(f) > 3 && f[3] != "" {
+				s += " " + f[3]
+			}
+			wantFotoFull = append(wantFotoFull, s)
+		}
+		for e := foto.GetFestivals().Front(); e != nil; e = e.Next() {
+			ff := e.Value.(*calendar.FotoFestival)
+			gotFotoFull = append(gotFotoFull, ff.ToFullString())
+		}
+		if strings.Join(gotFotoFull, "|") != strings.Join(wantFotoFull, "|") {
+			w.Violatef("festivals", "foto-full@"+key, "Foto festival full strings at lunar %s = %v, table gives %v", amd, gotFotoFull, wantFotoFull)
+		}
 		var wantFoto []string
 		for _, f := range FotoUtil.FESTIVAL[amd] {
 			wantFoto = append(wantFoto, f[0])
